@@ -393,6 +393,11 @@ def run(ctx):
             run_oracle(ctx, I, s, e2e=False)
 
     ctx.cov["evaluations"] += len(pairs) + ne2e * 8
+    if ctx.build_ok is False:
+        # gen/C19Tables.v or the proofs no longer build against this tree: the model cannot be evaluated; the oracle
+        # above has already looked for a failing input, lib.finish reports the proof break
+        ctx.notes.append("Coq build failed: correspondence and sweeps skipped, oracle results only")
+        return
     bad = lib.coq_compare(ctx, "c19", IMPORTS, pairs)
     ctx.cov["disagreements_checked"] += len(pairs)
     for i in bad[:20]:
@@ -406,7 +411,7 @@ def run(ctx):
     # ---------------------------------------------------------------- exhaustive sweeps, by checksum
     shards = []
     for alpha, n in [(A8, n5), (ABOUND, 3 if not ctx.thorough else 4)] + ([(ADEEP, 8)] if ctx.thorough else []):
-        if len(alpha) > 8:
+        if len(alpha) > 8 or not ctx.thorough:
             shards.append((alpha, 0, ""))
             shards += [(alpha, n - 1, a) for a in alpha]
         else:
